@@ -14,6 +14,7 @@ DECIDED = [
     "C09.1 bridge_with_node decision table; writers of _bridged_nodes and of the four registers; no register copies",
     "C09.2 bridging sites: on resolution, for fresh clones, all-pairs in the update tool",
     "C09.3 readiness/pick predicates and involved workers read the aliased registers (sibling agreement)",
+    "C09.4r/4p restrictions accumulate alike on nodes and objects (whole-line duplicate test); parents are looked up / parsed the same way whatever is already cached",
     "C09.4 single parsing entry point for lazy and eager expansion; lazy expansion condition; validate() at both sites",
 ]
 NOT_DECIDED = ["equivalence of per-worker subgraphs", "equality of lazy and eager results", "determinism across runs", "that workers together expand every compatible test"]
@@ -28,6 +29,8 @@ def run(ctx):
     ctx.call(N.pick_agreement, "3ps", "setup")
     ctx.call(N.pick_agreement, "3pc", "cleanup")
     ctx.call(GR.parsing_entry, "4")
+    ctx.call(GR.restriction_updates, "4r")
+    ctx.call(GR.dependency_provenance, "4p")
     ctx.call(GR.lazy_predicates, "4l")
     ctx.call(GR.validate_coverage, "4v")
     ctx.call(T.t_s1, "3x/T.S1")
